@@ -665,7 +665,8 @@ fn gen_growth5(r: &mut Rng, thorough: bool, v: &mut Vec<(String, String)>) -> St
                    rotate_start(r, p) }
             1 => { let t = r.below(7);
                    // aspect ratio w/l = 2^-e, e in 9..=20  (1:512 … 1:1e6); l, f powers of two
-                   let e = 9 + r.below(12) as i32; let l = *r.pick(&[2.0, 4.0, 8.0, 16.0]); let w = l * (0.5f64).powi(e);
+                   // (polygon extents stay within D: lattice placements scale by <= 2, random ones by <= 20)
+                   let e = 9 + r.below(12) as i32; let l = *r.pick(&[2.0, 4.0, 8.0, 16.0]) * if lat { 1.0 } else { 0.125 }; let w = l * (0.5f64).powi(e);
                    let f = *r.pick(&[0.5, 1.0, 2.0]);
                    ratio[((e as f64 * 0.30103 - 3.0).max(0.0) as usize).min(3)] += 1;
                    let base = needle(t, l, w, f);
